@@ -117,7 +117,7 @@ def run(tier, seed):
     from unyt import Unit, unyt_array
 
     chk = core.Check("C03", tier, seed)
-    chk.proof = core.prove("C03", PROOF_MODULES)
+    chk.proof = core.prove("C03", PROOF_MODULES, tier=tier)
     rng = chk.rng
     fams = families(tier, rng)
     model_lines = []
